@@ -196,6 +196,7 @@ fn replay_one(op: &str, w: &str) -> bool {
 }
 
 mod bigint_units;
+mod serde_units;
 
 fn main() {
     let args: Vec<String> = std::env::args().collect();
@@ -208,6 +209,8 @@ fn main() {
             let mut rng = Rng(seed.wrapping_mul(0x9E3779B97F4A7C15) | 1);
             let w = if unit.starts_with("MontConfig::") {
                 for_all_cfgs!(search_cfg, unit, &mut rng)
+            } else if unit.starts_with("c09_") || unit.starts_with("c18_") || unit.starts_with("Fp::") || unit.starts_with("Vec::") {
+                serde_units::search(unit)
             } else {
                 bigint_units::search(unit, &mut rng)
             };
@@ -218,7 +221,19 @@ fn main() {
         },
         "replay" => {
             let w = args[3].as_str();
-            let bad = if unit.starts_with("MontConfig::") { replay_one(unit, w) } else { bigint_units::replay(unit, w) };
+            let bad = if unit.starts_with("MontConfig::") {
+                replay_one(unit, w)
+            } else if unit.starts_with("c09_") || unit.starts_with("c18_") || unit.starts_with("Fp::") || unit.starts_with("Vec::") {
+                match serde_units::search(unit) {
+                    Some(d) => {
+                        println!("{d}");
+                        true
+                    },
+                    None => false,
+                }
+            } else {
+                bigint_units::replay(unit, w)
+            };
             std::process::exit(if bad { 1 } else { 0 });
         },
         _ => panic!("mode"),
